@@ -11,6 +11,7 @@ from __future__ import annotations
 
 import copy
 import json
+import os
 import random
 import re
 import time
@@ -320,7 +321,8 @@ FAMILIES: dict[str, dict] = {
     # the same links declared through the Python API (schema.add_link) instead of the document
     "added-by-api": {"api": True, "links": {"201": {
         "get": L(BY_ID("getUser"), {"id": "$response.body#/id", "query.q": "$response.header.X-Rid"}),
-        "put": L(BY_REF("put"), {"path.id": "$response.body#/nested/ids/0"}, {"name": "$response.body#/name", "tag": "api"})}}},
+        "put": L(BY_REF("put"), {"path.id": "$response.body#/nested/ids/0"}, {"name": "$response.body#/name", "tag": "api"}),
+        "del": L(BY_REF("delete"), {"id": "$response.body#/nested/ids/1"})}}},   # target given as an operation WITHOUT operationId
     # positive AND negative data generation: link-supplied values still win
     "two-links-both-modes": {"modes": "both", "links": {"201": {
         "get": L(BY_ID("getUser"), {"id": "$response.body#/id", "query.q": "$response.header.X-Rid"}),
@@ -343,6 +345,8 @@ def build_schema(fam: dict):
     for key, ls in fam["links"].items():
         for lname, ldef in ls.items():
             target = {"getUser": schema["/users/{id}"]["GET"], "putUser": schema["/users/{id}"]["PUT"]}.get(ldef.get("operationId"), ldef.get("operationRef"))
+            if lname == "del":
+                target = schema["/users/{id}"]["DELETE"]  # no operationId: add_link has to derive the operationRef itself
             schema.add_link(source=schema["/users"]["POST"], target=target, status_code=int(key) if key.isdigit() else key,
                             parameters=ldef.get("parameters"), request_body=ldef.get("requestBody"), name=lname)
     return schema
@@ -385,6 +389,8 @@ def run_live(name: str, fam: dict, seed: int, examples: int) -> list[dict]:
     records = []
     with LoopbackServer(behaviour) as srv:
         schema = build_schema(fam).configure(base_url=srv.base_url)
+        if fam.get("modes") == "both":  # the state machine reads the modes from the schema's own configuration
+            schema.configure(generation=GenerationConfig(modes=[GenerationMode.POSITIVE, GenerationMode.NEGATIVE]))
         generation = GenerationConfig(modes=[GenerationMode.POSITIVE, GenerationMode.NEGATIVE]) if fam.get("modes") == "both" else GenerationConfig()
         cfg = EngineConfig(execution=ExecutionConfig(
             phases=[PhaseName.STATEFUL_TESTING], checks=[], seed=seed, generation=generation,
@@ -787,9 +793,14 @@ def run(ctx: Ctx) -> Outcome:
     examples = 6 if ctx.quick else 25
     import multiprocessing as mp
 
-    with mp.get_context("fork").Pool(len(FAMILIES)) as pool:  # one engine + loopback server per family, side by side
-        for part in pool.starmap(run_live, [(name, fam, ctx.seed + 1, examples) for name, fam in FAMILIES.items()]):
-            live.extend(part)
+    jobs = [(name, fam, ctx.seed + 1, examples) for name, fam in FAMILIES.items()]
+    if os.environ.get("COVERAGE_RCFILE") or os.environ.get("VERIF_SERIAL_LIVE"):  # under coverage.py forked engines may not shut down
+        for job in jobs:
+            live.extend(run_live(*job))
+    else:
+        with mp.get_context("fork").Pool(min(8, len(jobs))) as pool:  # one engine + loopback server per family, side by side
+            for part in pool.starmap(run_live, jobs):
+                live.extend(part)
     # (d) link.extract on one stored output: every link alone and after a different link
     extract_records = [r for name, fam in FAMILIES.items() for r in run_extract(name, fam)]
     t_live = time.time() - t2
